@@ -4,7 +4,10 @@ in-process, and prints the same canonical answers the Lean driver prints.
 Runs under /venv/bin/python with PYTHONPATH=<repo>/src.  Objects are named by creation
 ordinal (`u17` = 18th entry of Unit._known), so object identity itself is compared.
 """
+import copy
 import decimal
+import json
+import pickle
 import os
 import struct
 import sys
@@ -37,6 +40,7 @@ from measured import (  # noqa: E402
     conversions,
 )
 from measured.parsing import ParseError  # noqa: E402
+from measured.json import MeasuredJSONDecoder, MeasuredJSONEncoder  # noqa: E402
 
 MOD = 2305843009213693951
 
@@ -267,8 +271,31 @@ class Session:
             return RawLine("ok\t" + self.state_digest())
         if f[0] == "U":
             return self.unit_op(f[1], f[2:])
+        if f[0] == "N" and f[1] in ("pser", "dser"):
+            if f[1] == "pser":
+                b, e = f[3][1:].split(":")
+                obj = Prefix(int(b), int(e))
+                back = roundtrip(f[2], obj)
+                if back is not obj:
+                    return RawLine("ok\tNOT-IDENTICAL")
+                return RawLine("ok\tp" + self.show_pfx(back))
+            key = tuple(int(x) for x in f[3][1:].split(","))
+            obj = Dimension(key)
+            back = roundtrip(f[2], obj)
+            if back is not obj:
+                return RawLine("ok\tNOT-IDENTICAL")
+            return RawLine("ok\td" + ",".join(istr(e) for e in back.exponents))
         if f[0] == "N":
             return self.n_op(f[1], f[2:])
+        if f[0] == "X" and f[1] in ("reenter", "qreenter", "qtext") and len(f) == 4:
+            return roundtrip(f[2], self.arg(f[3]))
+        if f[0] == "X" and f[1] == "pdump":
+            self.blobs = getattr(self, "blobs", [])
+            self.blobs.append((pickle.dumps(self.arg(f[2])), json.dumps(self.arg(f[2]), cls=MeasuredJSONEncoder)))
+            return RawLine("ok")
+        if f[0] == "X" and f[1] == "pload":
+            blob = self.blobs[int(f[3][2:])]
+            return pickle.loads(blob[0]) if f[2] == "pickle" else json.loads(blob[1], cls=MeasuredJSONDecoder)
         if f[0] == "X" and f[1] == "ptree" and len(f) == 5:
             return RawLine("ok\ts\t" + show_tree(tree_parser(f[2]).parse(self.arg(f[4]), start=f[3])))
         if f[0] == "X":
@@ -409,11 +436,36 @@ class Session:
             return text[len(head):]
         if op == "ufmt":
             return format(a[0], "/")
+        if op in ("reenter", "qreenter", "qtext") :
+            raise Bad(op)            # routed in dispatch (they carry a `how` argument)
         if op == "uparse":
             return Unit.parse(a[0])
         if op == "qparse":
             return Quantity.parse(a[0])
         raise Bad(op)
+
+
+def roundtrip(how, obj):
+    """The real serialisers: pickle (all protocols via `how`), copy, deepcopy, the library's JSON
+    codec, the pydantic validator on the JSON form, and the SQL composite form."""
+    if how.startswith("pickle"):
+        proto = int(how[6:] or pickle.HIGHEST_PROTOCOL)
+        return pickle.loads(pickle.dumps(obj, protocol=proto))
+    if how == "copy":
+        return copy.copy(obj)
+    if how == "deepcopy":
+        return copy.deepcopy(obj)
+    if how == "json":
+        return json.loads(json.dumps(obj, cls=MeasuredJSONEncoder), cls=MeasuredJSONDecoder)
+    if how == "jsoninstalled":
+        from measured.json import codecs_installed
+        with codecs_installed():
+            return json.loads(json.dumps(obj))
+    if how == "pydantic":
+        return type(obj)._pydantic_validate(json.loads(json.dumps(obj, cls=MeasuredJSONEncoder)))
+    if how == "composite":
+        return Quantity(*obj.__composite_values__())
+    raise Bad(how)
 
 
 _TREE_PARSERS = {}
